@@ -115,6 +115,7 @@ type interpreter struct {
 	panicStack   []*ssa.Function
 	fastCache    map[*Term]*[4]uint64
 	completeSeen int
+	local        [][]int32 // worker-local stack of unexplored decision prefixes
 }
 
 type deferred struct {
